@@ -230,7 +230,26 @@ def compare(ctx, case, stats, rng, n_vw, with_lte=True, with_kappa=True, vws=Non
             continue
         delta = RTOL + ATOL / min(vp, Tp, Tm)
         if branch != "detonation":
-            delta += RTOL / max(abs(Tp / Tn - 1), 1e-12)
+            # conditioning of the shooting in v+: signal = heating Tp/Tn - 1, known to rtol.
+            # Where the heating is below 1% and the two classes' Tp differ by less than 1%
+            # but by as much as the heating itself, the heating is not resolved at this rtol
+            hT, hG = abs(Tp / Tn - 1), abs(mg[2] / Tn - 1)
+            href = min(hT, hG)
+            dh = abs(mg[2] - Tp) / Tn
+            if href < 1e-2 and dh < 1e-2:
+                href = max(href - dh, 1e-12)
+            delta += RTOL / max(href, 1e-12)
+            # conditioning of T+ in v+: T+ = Tn w+^(1/mu), w+ = wFromAlpha(alpha+(v+, v-));
+            # |dln w+/dln v+| is large when (1-3 alpha+) mu - nu is close to 0
+            try:
+                def lnw(v):
+                    al = (v / vm - 1) * (v * vm / ht.cb2 - 1) / (1 - v * v) / 3
+                    return math.log(float(ht.wFromAlpha(al)))
+                S = abs(lnw(vp * (1 + 1e-6)) - lnw(vp * (1 - 1e-6))) / 2e-6 / ht.mu
+                if math.isfinite(S):
+                    delta += S * (RTOL + ATOL / vp)
+            except (ValueError, ZeroDivisionError):
+                pass
         tol = K_MATCH * delta / ((1 - vp * vp) * (1 - vm * vm))
         worst = max(rel(a, b) for a, b in zip(mg, mt))
         # walls within 50% of the hard-coded bracket floor 1e-3: the general solver's
@@ -277,6 +296,12 @@ def compare(ctx, case, stats, rng, n_vw, with_lte=True, with_kappa=True, vws=Non
             if abs(lg - lt) > toll:
                 key = "vwLTE"
                 note = ""
+                if small_alpha and lt == 0.0:
+                    # the template's 0.0 is its shortcut `alN <= (mu-nu)/(3 mu)`, nothing was
+                    # solved: the disagreement belongs to the recorded template class,
+                    # whatever the general class answers (its 2x2 solves start from the
+                    # template's guesses, which are NaN here)
+                    key = SMALL
                 if small_alpha and lt in (0.0, 1.0) and 0 < lg < 1:
                     # is the general value a genuine LTE solution?  (conservation, entropy
                     # T+ g+ = T- g-, shock reaching Tn, converged 2x2 solve)
@@ -286,9 +311,10 @@ def compare(ctx, case, stats, rng, n_vw, with_lte=True, with_kappa=True, vws=Non
                     ok = hg.success and rel(e1, e2) < 1e-6 and rel(m1, m2) < 1e-6 and abs(
                         Tp * math.sqrt(gammaSq(vp)) / (Tm * math.sqrt(gammaSq(vm))) - 1
                     ) < 1e-6 and abs(hg.solveHydroShock(lg, vp, Tp) / Tn - 1) < 100 * dT
-                    if ok:
-                        key = SMALL
-                        note = " (general value verified: fluxes, entropy, shock)"
+                    key = SMALL
+                    note = " (general value verified: fluxes, entropy, shock)" if ok else \
+                        " (general value NOT a solution: shock reaches %.4g Tn)" % (
+                            hg.solveHydroShock(lg, vp, Tp) / Tn)
                 fail("vwLTE: general %.12g, template %.12g%s" % (lg, lt, note), key,
                      quantity="vwLTE")
         except Exception as ex:
@@ -604,7 +630,9 @@ def run(ctx):
         "when a rarefaction wave is present; parameter "
         "sets with alN <= (1-psiN)/3 are outside the quantifier (the high-T phase has the "
         "higher pressure at Tn: no transition); tolerances: vJ %g*(rtol+atol/Tn), matching "
-        "and boundaries %g*(rtol+atol/min(vp,Tp,Tm)+rtol/|Tp/Tn-1|)*gamma+^2*gamma-^2, vwLTE "
+        "and boundaries %g*(rtol+atol/min(vp,Tp,Tm)+rtol/heating+S*(rtol+atol/vp))*gamma+^2*"
+        "gamma-^2 (heating = Tp/Tn-1, treated as unresolved when < 1%% and the classes differ "
+        "by as much; S = |dln w+/dln v+|/mu from the closed forms), vwLTE "
         "%g*(atol+(rtol+atol/Tn)*vw), vMin %g*(atol+rtol*vMin); the measured worst difference/tolerance ratios are in "
         "coverage.worst_difference_over_tolerance; distinct = distinct (parameter set, vw)"
         % (TOL_KAPPA, K_KAPPA_T, TOL_KAPPA_TIGHT, K_VJ, K_MATCH, K_LTE, K_VMIN))
